@@ -148,6 +148,19 @@ func c01Run1(in []byte, v c01Variant, wantMeasure bool) (sig uint64, ok bool, ke
 			}
 		case 6:
 			src := &stun.Message{Raw: data}
+			if v.Used && len(in) >= 20 && (len(in)-20)%4 == 0 {
+				// the source holds a stale attribute table: it decoded a different, valid message of the same length
+				fill := make([]byte, len(in))
+				putHeader(fill, 0x0001, len(in)-20, goodCookie, 9)
+				for off := 20; off+4 <= len(in); off += 4 {
+					fill[off], fill[off+1] = 0x7F, byte(off)
+				}
+				src.Raw = fill
+				if src.Decode() != nil {
+					src = &stun.Message{}
+				}
+				src.Raw = data
+			}
 			if v.Slack != 64 {
 				m.Raw = make([]byte, 0, len(in)+v.Slack)
 			}
